@@ -806,8 +806,11 @@ type waiterCase struct {
 	Fails   bool   `json:"fails"`
 	Waiters int    `json:"waiters"`
 	Abandon int    `json:"abandoned_waits,omitempty"` // waits given up (own context cancelled) before the real ones
-	Yields  []int  `json:"yields"`
-	Procs   int    `json:"gomaxprocs"`
+	// LateAbandon: waits that start while the real waiters are already
+	// blocked and are given up before the background execution ends
+	LateAbandon int   `json:"abandoned_waits_meanwhile,omitempty"`
+	Yields      []int `json:"yields"`
+	Procs       int   `json:"gomaxprocs"`
 }
 
 func runWaiters(c *waiterCase) string {
@@ -915,10 +918,33 @@ func runWaiters(c *waiterCase) string {
 			// (the observer of Worker.Background also receives the context
 			// error of every abandoned wait: only then a non-nil result of
 			// a successful execution is expected)
-			if checkErr && berr == nil && err != nil && !(c.Kind == "Worker.Background" && c.Abandon > 0) {
+			if checkErr && berr == nil && err != nil && !(c.Kind == "Worker.Background" && c.Abandon+c.LateAbandon > 0) {
 				bad <- fmt.Sprintf("%s: the waiter returned %v, the background execution succeeded", c.Kind, err)
 			}
 		}(i)
+	}
+	if waitWith != nil && c.LateAbandon > 0 {
+		// let the real waiters block first (only the chance of meeting
+		// them parked depends on this pause, not the verdict)
+		time.Sleep(300 * time.Microsecond)
+		for k := 0; k < c.LateAbandon; k++ {
+			actx, acancel := context.WithCancel(context.Background())
+			ret := make(chan struct{})
+			go func() { _ = waitWith(actx); close(ret) }()
+			vkit.Yield(c.Yields[k%len(c.Yields)])
+			time.Sleep(100 * time.Microsecond)
+			acancel()
+			select {
+			case <-ret:
+			case <-time.After(vkit.Limit()):
+				return fmt.Sprintf("%s: a wait is still blocked %v after its own context was cancelled", c.Kind, vkit.Limit())
+			}
+		}
+		select {
+		case why := <-bad:
+			return why
+		default:
+		}
 	}
 	// another goroutine opens the gate: no timing enters the verdict
 	go func() {
@@ -960,13 +986,14 @@ func TestWaiters(t *testing.T) {
 			return
 		}
 		c := &waiterCase{
-			Kind:    rapid.SampledFrom(waiterKinds).Draw(t, "kind"),
-			N:       rapid.IntRange(1, 5).Draw(t, "n"),
-			Fails:   rapid.Bool().Draw(t, "fails"),
-			Waiters: rapid.IntRange(1, 3).Draw(t, "waiters"),
-			Abandon: rapid.SampledFrom([]int{0, 0, 1, 2}).Draw(t, "abandon"),
-			Yields:  rapid.SliceOfN(rapid.IntRange(0, 4), 1, 4).Draw(t, "yields"),
-			Procs:   rapid.SampledFrom([]int{1, 2, 4, 16}).Draw(t, "gomaxprocs"),
+			Kind:        rapid.SampledFrom(waiterKinds).Draw(t, "kind"),
+			N:           rapid.IntRange(1, 5).Draw(t, "n"),
+			Fails:       rapid.Bool().Draw(t, "fails"),
+			Waiters:     rapid.IntRange(1, 3).Draw(t, "waiters"),
+			Abandon:     rapid.SampledFrom([]int{0, 0, 1, 2}).Draw(t, "abandon"),
+			LateAbandon: rapid.SampledFrom([]int{0, 0, 1, 2}).Draw(t, "lateAbandon"),
+			Yields:      rapid.SliceOfN(rapid.IntRange(0, 4), 1, 4).Draw(t, "yields"),
+			Procs:       rapid.SampledFrom([]int{1, 2, 4, 16}).Draw(t, "gomaxprocs"),
 		}
 		for i := 0; i < reps; i++ {
 			if why := runWaiters(c); why != "" {
